@@ -156,6 +156,14 @@ soa_struct!(clone, pub struct DrN { pub a: Tk<0>, #[nested_soa] pub n: Inner });
 impl Drop for DrN { fn drop(&mut self) { struct_dropped(self.a.id) } }
 shape!(DrN, DrNVec, DrNSlice, DrNSliceMut, DrNRef, DrNRefMut, DrNPtr, DrNPtrMut, drops=true, [(a leaf Tk<0>), (n nested Inner)]);
 
+// a `Drop` struct whose nested SoA field is itself a `Drop` struct: two destructors per element
+soa_struct!(clone, pub struct InnerD { pub x: Tk<0>, pub y: B1 });
+impl Drop for InnerD { fn drop(&mut self) { nested_struct_dropped() } }
+shape!(InnerD, InnerDVec, InnerDSlice, InnerDSliceMut, InnerDRef, InnerDRefMut, InnerDPtr, InnerDPtrMut, drops=true, [(x leaf Tk<0>), (y leaf B1)]);
+soa_struct!(clone, pub struct DrNN { pub a: Tk<0>, #[nested_soa] pub n: InnerD });
+impl Drop for DrNN { fn drop(&mut self) { struct_dropped(self.a.id) } }
+shape!(DrNN, DrNNVec, DrNNSlice, DrNNSliceMut, DrNNRef, DrNNRefMut, DrNNPtr, DrNNPtrMut, drops=true, [(a leaf Tk<0>), (n nested InnerD)]);
+
 // a `Drop` struct made of plain data only: no field needs dropping, the struct still does
 soa_struct!(clone, pub struct DrP { pub a: Pl, pub b: Pl });
 impl Drop for DrP { fn drop(&mut self) { struct_dropped(self.a.0) } }
